@@ -43,7 +43,7 @@ fn c18_grid(tier: Tier) -> Vec<Program> {
                 for checked in [true, false] {
                     for by_key in [true, false] {
                         for fl in [Fl::Sync, Fl::Async] {
-                            for dest in [Dest::Absent, Dest::Existing, Dest::OtherFs, Dest::LongName, Dest::WithSiblings, Dest::LinkOfContent, Dest::ExistingSuperset, Dest::SymlinkToContent, Dest::Directory] {
+                            for dest in [Dest::Absent, Dest::Existing, Dest::OtherFs, Dest::LongName, Dest::WithSiblings, Dest::LinkOfContent, Dest::ExistingSuperset, Dest::SymlinkToContent, Dest::Directory, Dest::ExistingSameLength] {
                                 n += 1;
                                 if len > 100_000 && n % 3 != 0 {
                                     continue;
@@ -67,7 +67,12 @@ fn c18_grid(tier: Tier) -> Vec<Program> {
                                     // missing key
                                     steps.push(Step { op: Op::Extract { kind, checked, by: By::Key(2), dest }, fl });
                                 }
-                                out.push(Program { keys: keys.clone(), blobs, steps });
+                                // every other missing key is, as text, the address of the stored value
+                                let mut keys = keys.clone();
+                                if n % 14 == 0 && len <= 100_000 {
+                                    keys[2] = crate::blob::sri(algo, &blobs[0].bytes());
+                                }
+                                out.push(Program { keys, blobs, steps });
                             }
                         }
                     }
